@@ -489,6 +489,32 @@ def shape_glob_undeclared():
     }
 
 
+def shape_amend_detached_input():
+    """T amends the output of W1 as input; the plan drops W1: the file node lingers detached and BUILT."""
+    return {
+        "name": "amend_detached_input",
+        "sources": {"plan.py": ["v1", "v2"], "cfg.txt": ["a", "b", "c"]},
+        "scripts": {
+            "./plan.py": {
+                "on": "plan.py",
+                "versions": {
+                    "v1": [
+                        ["static", ["cfg.txt"]],
+                        ["step", "W1", {"inp": [], "out": ["o1.txt"]}],
+                        ["step", "T", {"inp": ["cfg.txt"], "out": ["t.txt"]}],
+                    ],
+                    "v2": [
+                        ["static", ["cfg.txt"]],
+                        ["step", "T", {"inp": ["cfg.txt"], "out": ["t.txt"]}],
+                    ],
+                },
+            },
+            "W1": GENERIC_WORKER,
+            "T": worker_script(dyn_inp=["o1.txt"]),
+        },
+    }
+
+
 def shape_dir_glob():
     """A pattern that enumerates directories (one step per case directory)."""
     return {
@@ -553,6 +579,7 @@ SHAPES = {
         shape_nested_dirs,
         shape_glob_undeclared,
         shape_dir_glob,
+        shape_amend_detached_input,
         shape_resources,
     )
 }
